@@ -310,6 +310,110 @@ def staticOp (inp impl : Json) : Except String Resp := do
          why := if !spec then whyS else whyA,
          extra := if !spec && !allowed then some (jObj [("model", jStr whyA)]) else none }
 
+/-- histories of static reconciles interleaved with pod-driven provisioning passes -/
+def staticPodsOp (inp impl : Json) : Except String Resp := do
+  let replicas ← intF inp "replicas"
+  let limit ← intO inp "limit"
+  let dyn ← boolF inp "dyn"
+  let stepsJ ← arrF inp "steps"
+  let obsJ ← match fldOpt impl "obs" with
+    | some o => asArr o
+    | none => .error "implementation produced no observations (harness error)"
+  let reservedImpl ← intF impl "reserved"
+  if obsJ.length != stepsJ.length then throw "steps/observations length mismatch"
+  let mut w := World.init replicas limit []
+  let mut t : Karp.Spec.Static.Tracker := { replicas := replicas, limit := limit }
+  let mut dynTotal := 0
+  let mut dynPending := 0
+  let mut allowed := true
+  let mut whyA := ""
+  let mut spec := true
+  let mut whyS := ""
+  let mut i := 0
+  for (sj, oj) in stepsJ.zip obsJ do
+    let (o, deleted) ← parseObs oj
+    let ran ← boolF oj "ran"
+    let dT ← natF oj "dynTotal"
+    let dP ← natF oj "dynPending"
+    let others ← natF oj "otherClaims"
+    let kind ← strF sj "s"
+    if kind == "pods" then
+      let pods ← natList ((fldOpt sj "pods").getD (Json.arr #[]))
+      let eligible := (pods.filter (· == 0)).length
+      if allowed then
+        let expRan := podPassRuns w dynPending
+        let nothingYet := live w + deleting w == 0 && dynTotal == 0
+        w := podPass w (ran && expRan)
+        let c := counts w.st np
+        let exp := (live w + deleting w, deleting w, c.1, c.2.1, c.2.2, "")
+        let got := (o.total, o.deleting, o.a, o.d, o.p, o.err)
+        if ran != expRan then
+          allowed := false; whyA := s!"step {i}: model expects the pass to run = {expRan} (Cluster.Synced), implementation {ran}"
+        else if exp != got then
+          allowed := false
+          whyA := s!"step {i}: a pod-driven pass leaves the static pool alone: model expects (total, deleting, active, deleting, pending, err) = {repr exp}, implementation {repr got}"
+        else if others != 0 then
+          allowed := false; whyA := s!"step {i}: NodeClaims of no known NodePool"
+        else if dT < dynTotal || dP != dynPending + (dT - dynTotal) then
+          allowed := false; whyA := s!"step {i}: dynamic pool: NodeClaims {dynTotal} -> {dT}, unlaunched {dynPending} -> {dP}"
+        else if (!ran || !dyn) && dT != dynTotal then
+          allowed := false; whyA := s!"step {i}: NodeClaims were created for the dynamic pool although {if dyn then "the pass did not run" else "it does not exist"}"
+        else if dT - dynTotal > eligible then
+          allowed := false; whyA := s!"step {i}: {dT - dynTotal} NodeClaims for {eligible} pods that can run in the dynamic pool"
+        else if ran && dyn && eligible > 0 && nothingYet && dT == dynTotal then
+          allowed := false; whyA := s!"step {i}: empty cluster, {eligible} pods that can run in the dynamic pool, no NodeClaim"
+      if spec then
+        match Karp.Spec.Static.checkPodPass t.prev o others with
+        | some why => spec := false; whyS := s!"step {i}: {why}"
+        | none => pure ()
+      t := { t with prev := o }
+    else
+      let s ← parseStep sj
+      if allowed then
+        match modelStep w s deleted with
+        | .error e => allowed := false; whyA := s!"step {i}: {e}"
+        | .ok (w', err, grant) =>
+          w := w'
+          let c := counts w.st np
+          let exp := (live w + deleting w, deleting w, c.1, c.2.1, c.2.2, err, grant)
+          let got := (o.total, o.deleting, o.a, o.d, o.p, o.err, o.grant)
+          let expPending := if kind == "launch" then 0 else dynPending
+          if exp != got then
+            allowed := false
+            whyA := s!"step {i}: model expects (total, deleting, active, deleting, pending, err, grant) = {repr exp}, implementation {repr got}"
+          else if dT != dynTotal || dP != expPending || others != 0 then
+            allowed := false
+            whyA := s!"step {i}: a step of the static pool changed the NodeClaims of other pools ({dynTotal} -> {dT}, unlaunched {dynPending} -> {dP}, of no pool {others})"
+      if spec && !w.lossy then
+        match Karp.Spec.Static.check t s o with
+        | some why => spec := false; whyS := s!"step {i}: {why}"
+        | none => pure ()
+      t := Karp.Spec.Static.advance t s o
+    dynTotal := dT
+    dynPending := dP
+    i := i + 1
+  if allowed && reservedOf w.st np != reservedImpl then
+    allowed := false; whyA := s!"end: model expects reserved = {reservedOf w.st np}, implementation {reservedImpl}"
+  if spec && !w.lossy && reservedImpl != 0 then
+    spec := false
+    whyS := s!"end: reserved counter is {reservedImpl} although no reconcile is running (slots leaked or lost)"
+  pure { allowed := some allowed, spec := some spec,
+         why := if !spec then whyS else whyA,
+         extra := if !spec && !allowed then some (jObj [("model", jStr whyA)]) else none }
+
+/-- routing of NodePool / NodeClaim events to the static controllers -/
+def staticRouteOp (inp impl : Json) : Except String Resp := do
+  let replicas ← intO inp "replicas"
+  let claim ← strF inp "claim"
+  let r := route replicas (claim != "nolabel") (claim == "pool")
+  let model := jObj [("isStatic", jBool r.1), ("create", jBool r.2.1), ("update", jBool r.2.2.1), ("delete", jBool r.2.2.2.1),
+    ("generic", jBool r.2.2.2.2.1), ("claimStatic", jNat r.2.2.2.2.2.1), ("claimPlain", jNat r.2.2.2.2.2.2)]
+  let o : Karp.Spec.Static.RouteObs := {
+    isStatic := ← boolF impl "isStatic", create := ← boolF impl "create", update := ← boolF impl "update",
+    delete := ← boolF impl "delete", generic := ← boolF impl "generic", claimStatic := ← natF impl "claimStatic" }
+  let v := Karp.Spec.Static.checkRoute replicas (claim == "pool") o
+  pure { model := some model, spec := some v.isNone, why := v.getD "" }
+
 /-- one static-drift round -/
 def driftOp (inp impl : Json) : Except String Resp := do
   let replicasSpec ← natF inp "replicas"
@@ -436,6 +540,8 @@ def handle : Handler := fun op inp impl =>
   | "c03.create" => createOp inp impl
   | "c03.drift" => driftOp inp impl
   | "c03.driftpools" => driftPoolsOp inp impl
+  | "c03.staticpods" => staticPodsOp inp impl
+  | "c03.staticroute" => staticRouteOp inp impl
   | _ => .error s!"unknown op {op}"
 
 end Karp.Driver.C03
